@@ -243,7 +243,16 @@ def skippable(ctx, facts, roles, u, name, cfg, K3, expanded):
     def verdict_atom(b, k_):
         """The branch condition is a truthiness verdict, or is computed from one (`truthy(v) == stop_on`, `!truthy(v)`)."""
         if k_[0] == "site":
-            return is_verdict(b, k_[1])
+            if is_verdict(b, k_[1]):
+                return True
+            # a private bool function *of the verdict* (`self.is_settled_by(truthy(..))`, `stops(kind, verdict)`): it is
+            # handed a truthiness verdict and no JSON value, so what it answers is computed from the verdict
+            t_ = b.blocks[k_[1]]["term"]
+            c_ = callee_of(t_) if t_["k"] == "Call" else None
+            if c_ and c_.get("local") and facts.items.get(c_["key"], {}).get("output") == "bool" \
+                    and not any("serde_json::Value" in x_ or "Evaluated" in x_ for x_ in (facts.items.get(c_["key"], {}).get("inputs") or [])):
+                return any(expr_mentions(b.trace(a_), lambda y: y[0] == "call" and y[1] is not None and (y[1].get("key") in truthy_keys or (y[1].get("local") and yields_verdict(y[1]["key"])))) for a_ in t_["args"])
+            return False
         vk = set(truthy_keys) | {hk for hk in u.keys if hk not in truthy_keys and facts.body(hk) is not None and facts.body(hk).kind == "fn" and facts.items.get(hk, {}).get("output") != "bool" and yields_verdict(hk)}
         return any(isinstance(x, str) and any((tk + "@") in x for tk in vk) for x in k_[1:])
 
